@@ -89,10 +89,17 @@ func Run(s *simrt.Sim, a *harness.Args, r *harness.Result) {
 		}
 		w.cfg[sc] = c
 	}
+	floodDest := false
 	if manyKeys {
 		// the bucket-table scenario needs a keyed scope
 		if w.cfg["source"].conc == 0 {
 			w.cfg["source"] = scopeCfg{conc: 1 + s.T.Choose(st, 3)}
+		}
+		// ... and in half of the floods it is the destination scope whose
+		// table overflows (deliveries that come later meet a full table)
+		floodDest = s.T.Choose(st, 2) == 1
+		if floodDest && w.cfg["destination"].conc == 0 {
+			w.cfg["destination"] = scopeCfg{conc: 1 + s.T.Choose(st, 2)}
 		}
 		for k, c := range w.cfg {
 			c.burst = 0
@@ -169,6 +176,13 @@ func Run(s *simrt.Sim, a *harness.Args, r *harness.Result) {
 			}
 			for i := 0; i < n; i++ {
 				src := fmt.Sprintf("flood%05d.example", i)
+				if floodDest {
+					if err := w.g.TakeDest(ctx, src); err != nil {
+						continue
+					}
+					w.g.ReleaseDest(src)
+					continue
+				}
 				ip := net.IPv4(198, 51, byte(i/250), byte(1+i%250))
 				if err := w.g.TakeMsg(ctx, ip, src); err != nil {
 					continue
